@@ -22,7 +22,7 @@ def _extract_tests(out):
     return tests
 
 
-def concrete_playback(scratch, spec, cap_s):
+def concrete_playback(scratch, spec, cap_s, unwindset=None):
     cfg = scratch.cfg
     cmd = ["cargo", "kani", "-p", cfg["pkg"], "--no-default-features"]
     if cfg["features"]:
@@ -31,14 +31,23 @@ def concrete_playback(scratch, spec, cap_s):
             "--target-dir", scratch.target]
     if spec.get("unwind") is not None:
         cmd += ["--unwind", str(spec["unwind"])]
+    if unwindset:
+        # the same per-loop bounds the verdict was obtained with (must be the last flag)
+        cmd += ["-Z", "unstable-options", "--cbmc-args", "--unwindset", ",".join(unwindset)]
     try:
         p = subprocess.run(cmd, cwd=scratch.src, env=kani.ENV, stdout=subprocess.PIPE, stderr=subprocess.STDOUT, text=True,
                            timeout=cap_s)
     except subprocess.TimeoutExpired:
         return None, "concrete playback timed out after %ds" % cap_s
     tests = _extract_tests(p.stdout)
+    try:
+        os.makedirs(os.path.join(VERIF, "replays"), exist_ok=True)
+        open(os.path.join(VERIF, "replays", "last_playback_%s.log" % spec["name"]), "w").write(" ".join(cmd) + "\n" + p.stdout[-20000:])
+    except OSError:
+        pass
     if not tests:
-        return None, "kani printed no concrete playback test (failure is not an assertion over kani::any inputs?)"
+        tail = [l for l in p.stdout.splitlines() if ("error" in l.lower() or "VERIFICATION" in l or "CBMC" in l)][-5:]
+        return None, "kani printed no concrete playback test: " + " | ".join(tail)[:400]
     return tests, ""
 
 
@@ -77,7 +86,11 @@ def native_run(spec, tests, tag="replay"):
             details.append("native run timed out after 1800s (possible hang)")
         failed = re.findall(r"test \S*(kani_concrete_playback_\w+) \.\.\. FAILED", out)
         passed = re.findall(r"test \S*(kani_concrete_playback_\w+) \.\.\. ok", out)
-        if failed:
+        pm0 = re.search(r"panicked at ([^\n]*)", out)
+        fmt_mismatch = bool(pm0 and "kani/src/concrete_playback.rs" in pm0.group(1)) or ("Not enough det vals" in out)
+        if failed and fmt_mismatch:
+            details.append("playback input does not match the harness' kani::any() sequence (not a reproduction): %s" % out[-300:])
+        elif failed:
             reproduced = True
             pm = re.search(r"panicked at ([^\n]*)\n([^\n]*)", out)
             details.append("reproduced natively (%d of %d playback tests panic): %s" % (
@@ -105,7 +118,29 @@ def replay_failure(pid, spec, res, scratches):
         json.dump(rec, open(path, "w"), indent=1)
         return dict(reproduced=rec["reproduced"], path=path, why=res.get("native_detail", ""))
     sc = next((s for s in scratches if s.config == spec["config"]), None)
-    tests, why = concrete_playback(sc, spec, int(spec.get("cap_s", 240)) * 3 + 600)
+    tests, why = None, ""
+    # 1. counterexample from our own CBMC run with --trace (slicing kept on)
+    if res.get("rerun"):
+        try:
+            tr = res["rerun"]()
+            if tr.get("json") and tr.get("status") == "fail":
+                vals, what = kani.concrete_values_from_trace(tr["json"])
+                if vals is not None:
+                    body = ",\n".join("        vec![%s]" % ", ".join(str(x) for x in v) for v in vals)
+                    tname = "kani_concrete_playback_%s_trace" % spec["name"]
+                    src = ("#[test]\nfn %s() {\n    // counterexample for: %s\n    let concrete_vals: Vec<Vec<u8>> = vec![\n%s\n    ];\n"
+                           "    kani::concrete_playback_run(concrete_vals, %s);\n}") % (tname, what.replace("\n", " ")[:150], body, spec["name"])
+                    tests = [(tname, src)]
+                else:
+                    why = "trace extraction: " + str(what)
+            else:
+                why = "trace re-run did not fail again: %s" % tr.get("reason", "")
+        except Exception as e:  # noqa
+            why = "trace re-run failed: %r" % (e,)
+    # 2. fall back to Kani's concrete playback
+    if not tests:
+        tests, why2 = concrete_playback(sc, spec, int(spec.get("cap_s", 240)) + 900, res.get("unwindset"))
+        why = (why + "; " + why2).strip("; ")
     if not tests:
         rec["reproduced"] = False
         rec["why"] = why
